@@ -173,8 +173,8 @@ package canary
 //@   ensures [absent] (forall j int :: 0 <= j && j < old(len(us.items)) ==> old(us.items[j]) != item) ==> len(us.items) == old(len(us.items)) && (forall j int :: 0 <= j && j < len(us.items) ==> us.items[j] == old(us.items[j]))
 //@   ensures [present-len] (exists k int :: 0 <= k && k < old(len(us.items)) && old(us.items[k]) == item) ==> len(us.items) == old(len(us.items)) - 1
 //@   ensures [present-prefix] forall i int :: 0 <= i && i < old(len(us.items)) && old(us.items[i]) == item && (forall j int :: 0 <= j && j < i ==> old(us.items[j]) != item) ==> (forall j int :: 0 <= j && j < i ==> us.items[j] == old(us.items[j]))
-// (the shift clause 'elements after the removed one move down by one' is not carried by the solvers
-//  in bit-vector arithmetic within the time limit; it is not claimed, see /verif/DESIGN.md)
+//@   ensures [shift] 0 <= i && i < old(len(us.items)) && old(us.items[i]) == item ==> (forall j int :: i <= j && j < len(us.items) ==> us.items[j] == old(us.items[j+1]))
+//@   option absidx
 //@   modifies us.items, us.items[:]
 //@   loop 1: invariant forall j int :: 0 <= j && j <= rangeindex ==> us.items[j] != item
 //
